@@ -1,39 +1,61 @@
 #!/bin/bash
-# usage: run.sh <ID> <quick|thorough>   — rebuilds the harness against /repo's working tree (tag verif) and runs one check
+# usage: run.sh <ID> <quick|thorough>   |   run.sh replay <replays/ID-k.json>
+# Rebuilds the harness against the repository's current working tree (tag verif) and runs one check.
+#   VERIF_REPO  repository to build against (default /repo; a scratch worktree when a seeded change is tried)
+#   VERIF_OUT   where bin/, evidence/ and replays/ go (default /verif; a scratch dir for seeded runs)
 set -u
 ID="$1"; TIER="${2:-quick}"
+MODE=check
+if [ "$ID" = "replay" ]; then
+  # run.sh replay <artefact.json>: rebuild the binary of the artefact's property and re-execute the recorded case
+  MODE=replay; ARTEFACT="$2"; TIER=quick
+  ID=$(jq -r .property "$ARTEFACT") || exit 2
+fi
 export GOFLAGS=-mod=mod GOPROXY=off GOTOOLCHAIN=${GOTOOLCHAIN:-auto}
 export GOCACHE=${GOCACHE:-/verif/.cache/go-build}
+REPO=${VERIF_REPO:-/repo}
+OUT=${VERIF_OUT:-/verif}
+export VERIF_REPO="$REPO" VERIF_OUT="$OUT"
 cd /verif/harness || exit 2
-mkdir -p /verif/bin /verif/evidence /verif/replays
-BIN=/verif/bin/rxv
+mkdir -p "$OUT/bin" "$OUT/evidence" "$OUT/replays"
+BIN="$OUT/bin/rxv-$ID"
 TAGS=verif
 OVERLAY=""
+MODFILE=""
+SCRATCH=$(mktemp -d /var/tmp/rxv-build.XXXXXX)
+trap 'rm -rf "$SCRATCH"' EXIT
+if [ "$REPO" != "/repo" ]; then
+  # same harness sources, module file pointing at the other tree
+  sed "s#=> /repo#=> $REPO#" go.mod > "$SCRATCH/go.mod"
+  [ -f go.sum ] && cp go.sum "$SCRATCH/go.sum"
+  MODFILE="-modfile=$SCRATCH/go.mod"
+fi
 case "$ID" in
   C11|C12|C14)
-    # schedule exploration: build /repo through an overlay that routes sync / atomic / time through the shims
-    BIN=/verif/bin/rxs
+    # schedule exploration: build the repository through an overlay that routes sync / atomic / time through the shims
     TAGS="verif sched"
-    SCRATCH=$(mktemp -d /var/tmp/rxs-overlay.XXXXXX)
-    trap 'rm -rf "$SCRATCH"' EXIT
-    (cd /verif/mkoverlay && go build -o /verif/bin/mkoverlay . ) || { echo "mkoverlay build failed" >&2; exit 2; }
-    /verif/bin/mkoverlay /repo /verif/shim "$SCRATCH" >/dev/null || { echo "overlay generation failed" >&2; exit 2; }
+    (cd /verif/mkoverlay && go build -o "$OUT/bin/mkoverlay" . ) || { echo "mkoverlay build failed" >&2; exit 2; }
+    "$OUT/bin/mkoverlay" "$REPO" /verif/shim "$SCRATCH" >/dev/null || { echo "overlay generation failed" >&2; exit 2; }
     OVERLAY="-overlay $SCRATCH/overlay.json"
     ;;
 esac
-build() { go build -tags "$TAGS" $OVERLAY -o "$BIN" . ; }
-if ! build 2>/verif/bin/build.err; then
+build() { go build $MODFILE -tags "$TAGS" $OVERLAY -o "$BIN" . ; }
+if ! build 2>"$OUT/bin/build-$ID.err"; then
   # fall back to the newer local toolchain if the automatic switch is unavailable
-  if ! GOTOOLCHAIN=local go1.26 build -tags "$TAGS" $OVERLAY -o "$BIN" . 2>>/verif/bin/build.err; then
-    cat /verif/bin/build.err >&2
-    echo "harness build failed against /repo working tree" >&2
+  if ! GOTOOLCHAIN=local go1.26 build $MODFILE -tags "$TAGS" $OVERLAY -o "$BIN" . 2>>"$OUT/bin/build-$ID.err"; then
+    cat "$OUT/bin/build-$ID.err" >&2
+    echo "harness build failed against $REPO working tree" >&2
     exit 2
   fi
 fi
+if [ "$MODE" = "replay" ]; then
+  "$BIN" replay "$ARTEFACT"
+  exit $?
+fi
 if [ "$ID" = "C11" ]; then
   # auxiliary leg: the same scenario bodies free-running under the race detector
-  if go build -race -tags "$TAGS" $OVERLAY -o /verif/bin/rxs-race . 2>/verif/bin/build-race.err; then
-    export RXS_RACE_BIN=/verif/bin/rxs-race
+  if go build $MODFILE -race -tags "$TAGS" $OVERLAY -o "$OUT/bin/rxs-race" . 2>"$OUT/bin/build-race.err"; then
+    export RXS_RACE_BIN="$OUT/bin/rxs-race"
   fi
 fi
 "$BIN" "$ID" -tier "$TIER"
